@@ -122,12 +122,14 @@ func (h *inFlightRequestsHandler) onIncomingFrameReceived(f *frame.Frame) error 
 	if err == nil {
 		if isLastFrame(f) {
 			h.removeInFlight(streamId)
+			verifPoint("inflight.incoming.afterRemove")
 			if inFlight.managedStreamId {
 				if err := h.releaseStreamId(streamId); err != nil {
 					return err
 				}
 			}
 		}
+		verifPoint("inflight.incoming.beforeHandOver")
 		err = inFlight.onFrameReceived(f)
 	}
 	return err
